@@ -15,17 +15,35 @@ pub struct VError {
 struct V<'a> {
     s: &'a Schema,
     doc: &'a ExecDoc,
-    errs: Vec<VError>,
+    /// (error, clause): the clause names which part of the rule failed (structural, for attribution)
+    errs: Vec<(VError, String)>,
+    /// true while the directives / arguments of a `__typename` field node are being checked
+    on_typename: bool,
 }
 
 impl<'a> V<'a> {
     fn e(&mut self, rule: &'static str, pos: Pos, msg: impl Into<String>) {
-        self.errs.push(VError { rule, msg: msg.into(), pos });
+        self.errs.push((VError { rule, msg: msg.into(), pos }, String::new()));
+    }
+    fn ec(&mut self, rule: &'static str, clause: impl Into<String>, pos: Pos, msg: impl Into<String>) {
+        let mut c: String = clause.into();
+        if self.on_typename {
+            c.push_str("@__typename");
+        }
+        self.errs.push((VError { rule, msg: msg.into(), pos }, c));
     }
 }
 
 pub fn validate(s: &Schema, doc: &ExecDoc) -> Vec<VError> {
-    let mut v = V { s, doc, errs: Vec::new() };
+    validate_clauses(s, doc).into_iter().map(|(e, _)| e).collect()
+}
+
+/// As `validate`, each error paired with a *clause*: a short structural tag naming which part of
+/// the rule failed (e.g. `InputObject<-Int` for ValuesOfCorrectType, `not-exactly-one-root` for
+/// SingleRootField, `same-scope/different-condition/field` for FieldSelectionMerging). Empty when
+/// the rule has a single clause.
+pub fn validate_clauses(s: &Schema, doc: &ExecDoc) -> Vec<(VError, String)> {
+    let mut v = V { s, doc, errs: Vec::new(), on_typename: false };
     v.operations();
     v.fragments_decl();
     for op in doc.ops() {
@@ -87,11 +105,11 @@ impl<'a> V<'a> {
             }
         }
         if distinct.len() != 1 {
-            self.e("SingleRootField", op.pos, "subscription must select exactly one root field");
+            self.ec("SingleRootField", "not-exactly-one-root", op.pos, "subscription must select exactly one root field");
         }
         for (_, f) in &keys {
             if f.name.s.starts_with("__") {
-                self.e("SingleRootField", f.pos, "subscription root field must not be an introspection field");
+                self.ec("SingleRootField", "introspection-root", f.pos, "subscription root field must not be an introspection field");
                 break;
             }
         }
@@ -129,14 +147,14 @@ impl<'a> V<'a> {
             if !seen.insert(f.name.s.clone()) {
                 self.e("FragmentNameUniqueness", f.name.pos, format!("duplicate fragment {}", f.name.s));
             }
-            self.type_condition(&f.cond);
+            self.type_condition(&f.cond, "definition");
         }
     }
-    fn type_condition(&mut self, c: &PName) {
+    fn type_condition(&mut self, c: &PName, site: &str) {
         if self.s.ty(&c.s).is_none() {
-            self.e("FragmentSpreadTypeExistence", c.pos, format!("unknown type {}", c.s));
+            self.ec("FragmentSpreadTypeExistence", site, c.pos, format!("unknown type {}", c.s));
         } else if !self.s.is_composite(&c.s) {
-            self.e("FragmentsOnCompositeTypes", c.pos, format!("{} is not a composite type", c.s));
+            self.ec("FragmentsOnCompositeTypes", site, c.pos, format!("{} is not a composite type", c.s));
         }
     }
 
@@ -145,17 +163,19 @@ impl<'a> V<'a> {
         for s in sel {
             match s {
                 Selection::Field(f) => {
+                    self.on_typename = f.name.s == "__typename";
                     self.directives(&f.directives, "FIELD");
+                    self.on_typename = false;
                     let Some(parent) = parent else {
                         self.selection_set(&f.sel, None);
                         continue;
                     };
                     if f.name.s == "__typename" {
                         if !f.sel.is_empty() {
-                            self.e("LeafFieldSelections", f.pos, "__typename takes no selection");
+                            self.ec("LeafFieldSelections", "typename-with-selection", f.pos, "__typename takes no selection");
                         }
                         if !f.args.is_empty() {
-                            self.e("ArgumentNames", f.pos, "__typename takes no arguments");
+                            self.ec("ArgumentNames", "typename-with-argument", f.pos, "__typename takes no arguments");
                         }
                         continue;
                     }
@@ -167,14 +187,14 @@ impl<'a> V<'a> {
                             self.selection_set(&f.sel, None);
                         }
                         Some(fd) => {
-                            self.arguments(&fd.args, &f.args, f.pos);
+                            self.arguments(&fd.args, &f.args, f.pos, "field");
                             let base = fd.ty.base().to_string();
                             if self.s.is_leaf(&base) {
                                 if !f.sel.is_empty() {
-                                    self.e("LeafFieldSelections", f.pos, format!("field {} of leaf type takes no selection", f.name.s));
+                                    self.ec("LeafFieldSelections", "leaf-with-selection", f.pos, format!("field {} of leaf type takes no selection", f.name.s));
                                 }
                             } else if f.sel.is_empty() {
-                                self.e("LeafFieldSelections", f.pos, format!("field {} of composite type needs a selection", f.name.s));
+                                self.ec("LeafFieldSelections", "composite-without-selection", f.pos, format!("field {} of composite type needs a selection", f.name.s));
                             }
                             self.selection_set(&f.sel, Some(&base));
                         }
@@ -187,7 +207,7 @@ impl<'a> V<'a> {
                         Some(fr) => {
                             if let Some(parent) = parent {
                                 if self.s.is_composite(&fr.cond.s) && !self.overlap(parent, &fr.cond.s) {
-                                    self.e("FragmentSpreadIsPossible", sp.pos, format!("fragment {} on {} can never apply to {}", sp.name.s, fr.cond.s, parent));
+                                    self.ec("FragmentSpreadIsPossible", "named", sp.pos, format!("fragment {} on {} can never apply to {}", sp.name.s, fr.cond.s, parent));
                                 }
                             }
                         }
@@ -197,11 +217,11 @@ impl<'a> V<'a> {
                     self.directives(&i.directives, "INLINE_FRAGMENT");
                     let mut inner = parent.map(|p| p.to_string());
                     if let Some(c) = &i.cond {
-                        self.type_condition(c);
+                        self.type_condition(c, "inline");
                         if self.s.is_composite(&c.s) {
                             if let Some(parent) = parent {
                                 if !self.overlap(parent, &c.s) {
-                                    self.e("FragmentSpreadIsPossible", i.pos, format!("inline fragment on {} can never apply to {}", c.s, parent));
+                                    self.ec("FragmentSpreadIsPossible", "inline", i.pos, format!("inline fragment on {} can never apply to {}", c.s, parent));
                                 }
                             }
                             inner = Some(c.s.clone());
@@ -222,14 +242,14 @@ impl<'a> V<'a> {
     }
 
     // 5.4.1, 5.4.2, 5.4.2.1 + 5.6 for literals
-    fn arguments(&mut self, defs: &[Arg], given: &'a [(PName, PValue)], pos: Pos) {
+    fn arguments(&mut self, defs: &[Arg], given: &'a [(PName, PValue)], pos: Pos, site: &str) {
         let mut seen = BTreeSet::new();
         for (k, v) in given {
             if !seen.insert(k.s.clone()) {
-                self.e("ArgumentUniqueness", k.pos, format!("duplicate argument {}", k.s));
+                self.ec("ArgumentUniqueness", site, k.pos, format!("duplicate argument {}", k.s));
             }
             match defs.iter().find(|d| d.name == k.s) {
-                None => self.e("ArgumentNames", k.pos, format!("unknown argument {}", k.s)),
+                None => self.ec("ArgumentNames", format!("unknown-argument-on-{site}"), k.pos, format!("unknown argument {}", k.s)),
                 Some(d) => self.value_of_type(&d.ty, v),
             }
         }
@@ -237,8 +257,8 @@ impl<'a> V<'a> {
             if d.ty.is_non_null() && d.default.is_none() {
                 let g = given.iter().find(|(k, _)| k.s == d.name);
                 match g {
-                    None => self.e("RequiredArguments", pos, format!("missing required argument {}", d.name)),
-                    Some((_, v)) if v.v == Value::Null => self.e("RequiredArguments", v.pos, format!("null for required argument {}", d.name)),
+                    None => self.ec("RequiredArguments", format!("missing-on-{site}"), pos, format!("missing required argument {}", d.name)),
+                    Some((_, v)) if v.v == Value::Null => self.ec("RequiredArguments", format!("null-literal-on-{site}"), v.pos, format!("null for required argument {}", d.name)),
                     _ => {}
                 }
             }
@@ -253,7 +273,7 @@ impl<'a> V<'a> {
         match ty {
             Type::NonNull(t) => {
                 if v.v == Value::Null {
-                    self.e("ValuesOfCorrectType", v.pos, format!("null for non-null type {ty}"));
+                    self.ec("ValuesOfCorrectType", "NonNull<-Null", v.pos, format!("null for non-null type {ty}"));
                 } else {
                     self.value_of_type(t, v);
                 }
@@ -280,17 +300,18 @@ impl<'a> V<'a> {
                             _ => true,
                         };
                         if !ok {
-                            self.e("ValuesOfCorrectType", v.pos, format!("value {} is not a {n}", crate::print::value(&v.v)));
+                            self.ec("ValuesOfCorrectType", format!("{n}<-{}", lit_kind(&v.v)), v.pos, format!("value {} is not a {n}", crate::print::value(&v.v)));
                         }
                     }
                     Kind::Enum { values } => {
                         if !matches!(&v.v, Value::Enum(x) if values.iter().any(|(n, _, _)| n == x)) {
-                            self.e("ValuesOfCorrectType", v.pos, format!("value {} is not a value of enum {n}", crate::print::value(&v.v)));
+                            let given = if matches!(&v.v, Value::Enum(_)) { "UnknownEnumValue" } else { lit_kind(&v.v) };
+                            self.ec("ValuesOfCorrectType", format!("Enum<-{given}"), v.pos, format!("value {} is not a value of enum {n}", crate::print::value(&v.v)));
                         }
                     }
                     Kind::Input { fields, one_of } => {
                         let Value::Object(o) = &v.v else {
-                            self.e("ValuesOfCorrectType", v.pos, format!("value {} is not an input object {n}", crate::print::value(&v.v)));
+                            self.ec("ValuesOfCorrectType", format!("InputObject<-{}", lit_kind(&v.v)), v.pos, format!("value {} is not an input object {n}", crate::print::value(&v.v)));
                             return;
                         };
                         let fields = fields.clone();
@@ -311,9 +332,9 @@ impl<'a> V<'a> {
                         }
                         if *one_of {
                             if o.len() != 1 {
-                                self.e("OneOfInputObjects", v.pos, "oneOf input object needs exactly one field");
+                                self.ec("OneOfInputObjects", "not-exactly-one-field", v.pos, "oneOf input object needs exactly one field");
                             } else if o[0].1.v == Value::Null {
-                                self.e("OneOfInputObjects", v.pos, "oneOf input object field must not be null");
+                                self.ec("OneOfInputObjects", "null-field", v.pos, "oneOf input object field must not be null");
                             }
                         }
                     }
@@ -328,15 +349,15 @@ impl<'a> V<'a> {
         let mut seen = BTreeSet::new();
         for d in ds {
             match self.s.directives.get(&d.name.s).cloned() {
-                None => self.e("DirectivesAreDefined", d.pos, format!("unknown directive @{}", d.name.s)),
+                None => self.ec("DirectivesAreDefined", location, d.pos, format!("unknown directive @{}", d.name.s)),
                 Some(dd) => {
                     if !dd.locations.iter().any(|l| l == location) {
-                        self.e("DirectivesAreInValidLocations", d.pos, format!("@{} not allowed on {location}", d.name.s));
+                        self.ec("DirectivesAreInValidLocations", location, d.pos, format!("@{} not allowed on {location}", d.name.s));
                     }
                     if !dd.repeatable && !seen.insert(d.name.s.clone()) {
-                        self.e("DirectivesAreUniquePerLocation", d.pos, format!("@{} used twice", d.name.s));
+                        self.ec("DirectivesAreUniquePerLocation", location, d.pos, format!("@{} used twice", d.name.s));
                     }
-                    self.arguments(&dd.args, &d.args, d.pos);
+                    self.arguments(&dd.args, &d.args, d.pos, "directive");
                 }
             }
         }
@@ -366,7 +387,8 @@ impl<'a> V<'a> {
                 for s in sp {
                     if s.name.s == f.name.s {
                         if reported.insert(f.name.s.clone()) {
-                            self.errs.push(VError { rule: "FragmentSpreadsMustNotFormCycles", msg: format!("fragment {} is part of a cycle", f.name.s), pos: s.pos });
+                            let clause = if cur == f.name.s { "direct" } else { "indirect" };
+                            self.errs.push((VError { rule: "FragmentSpreadsMustNotFormCycles", msg: format!("fragment {} is part of a cycle", f.name.s), pos: s.pos }, clause.to_string()));
                         }
                     } else if seen.insert(s.name.s.as_str()) {
                         stack.push((s.name.s.as_str(), vec![]));
@@ -399,7 +421,7 @@ impl<'a> V<'a> {
         }
         for f in self.doc.frags() {
             if !used.contains(f.name.s.as_str()) {
-                self.errs.push(VError { rule: "FragmentsMustBeUsed", msg: format!("fragment {} is never used", f.name.s), pos: f.pos });
+                self.errs.push((VError { rule: "FragmentsMustBeUsed", msg: format!("fragment {} is never used", f.name.s), pos: f.pos }, String::new()));
             }
         }
     }
@@ -412,9 +434,9 @@ impl<'a> V<'a> {
                 self.e("VariableUniqueness", d.pos, format!("duplicate variable ${}", d.name.s));
             }
             if self.s.ty(d.ty.base()).is_some() && !self.s.is_input(d.ty.base()) {
-                self.e("VariablesAreInputTypes", d.pos, format!("variable ${} has non-input type {}", d.name.s, d.ty));
+                self.ec("VariablesAreInputTypes", "non-input-type", d.pos, format!("variable ${} has non-input type {}", d.name.s, d.ty));
             } else if self.s.ty(d.ty.base()).is_none() {
-                self.e("VariablesAreInputTypes", d.pos, format!("variable ${} has unknown type {}", d.name.s, d.ty));
+                self.ec("VariablesAreInputTypes", "unknown-type", d.pos, format!("variable ${} has unknown type {}", d.name.s, d.ty));
             } else if let Some(def) = &d.default {
                 self.value_of_type(&d.ty, def);
             }
@@ -434,7 +456,14 @@ impl<'a> V<'a> {
                 Some(d) => {
                     if let Some((lt, loc_default)) = loc {
                         if !self.variable_usage_allowed(d, lt, *loc_default) {
-                            self.e("AllVariableUsagesAreAllowed", *pos, format!("variable ${name} of type {} used where {} is expected", d.ty, lt));
+                            let clause = if d.ty.base() != lt.base() {
+                                "named-type"
+                            } else if list_depth(&d.ty) != list_depth(lt) {
+                                "list-depth"
+                            } else {
+                                "nullability"
+                            };
+                            self.ec("AllVariableUsagesAreAllowed", clause, *pos, format!("variable ${name} of type {} used where {} is expected", d.ty, lt));
                         }
                     }
                 }
@@ -473,8 +502,10 @@ impl<'a> V<'a> {
                 }
             }
             Value::Object(o) => {
+                // §3.11 input coercion: a non-list literal at a list position stands for a one-item list
+                // (at every nesting level), so an object literal at `[In!]` is an `In` literal
                 let fields: Option<Vec<Arg>> = ty.and_then(|t| match self.s.ty(t.base()).map(|x| &x.kind) {
-                    Some(Kind::Input { fields, .. }) if matches!(t.nullable(), Type::Named(_)) => Some(fields.clone()),
+                    Some(Kind::Input { fields, .. }) => Some(fields.clone()),
                     _ => None,
                 });
                 for (k, x) in o {
@@ -531,42 +562,81 @@ impl<'a> V<'a> {
         }
     }
 
-    // 5.3.2 Field Selection Merging
+    // 5.3.2 Field Selection Merging — FieldsInSetCanMerge / SameResponseShape, literally.
+    //
+    // "Let set be any selection set defined in the GraphQL document": every selection set (operation,
+    // fragment definition, field, inline fragment) is checked. Phase 1 checks the pairs of each set
+    // itself (clause scope `same-scope`); phase 2 adds the recursion into merged sub-selection sets
+    // (step 2.b.iv), whose additional conflicts get scope `merged-subselection`.
     fn overlapping(&mut self) {
         let mut sets: Vec<(&'a [Selection], Option<String>)> = Vec::new();
         for op in self.doc.ops() {
-            sets.push((&op.sel, self.s.root(op.kind).map(|s| s.to_string())));
+            let root = self.s.root(op.kind).map(|s| s.to_string());
+            self.all_sets(&op.sel, root, &mut sets);
         }
-        // every selection set in the document is checked in its own right (the rule is stated for
-        // "any selection set"); nested ones are reached through the recursion of fields_can_merge.
         for f in self.doc.frags() {
-            sets.push((&f.sel, Some(f.cond.s.clone())));
+            let cond = if self.s.is_composite(&f.cond.s) { Some(f.cond.s.clone()) } else { None };
+            self.all_sets(&f.sel, cond, &mut sets);
         }
         let mut reported: BTreeSet<(Pos, Pos)> = BTreeSet::new();
-        for (sel, parent) in sets {
-            let mut fields = Vec::new();
-            let mut visited = BTreeSet::new();
-            self.fields_in_set(sel, parent.as_deref(), &mut visited, &mut fields);
-            self.fields_can_merge(&fields, &mut reported, 0);
+        for recurse in [false, true] {
+            for (sel, parent) in &sets {
+                let mut fields = Vec::new();
+                let mut visited = BTreeSet::new();
+                self.fields_in_set(sel, parent.as_deref(), None, &mut visited, &mut fields);
+                self.fields_can_merge(&fields, &mut reported, 0, recurse);
+            }
         }
     }
 
-    /// "fieldsForName": every field reachable in the set including through fragments, with its parent type.
-    fn fields_in_set(&self, sel: &'a [Selection], parent: Option<&str>, visited: &mut BTreeSet<String>, out: &mut Vec<(&'a Field, Option<String>)>) {
+    /// every selection set below (and including) `sel`, with the type its fields are selected on
+    fn all_sets(&self, sel: &'a [Selection], parent: Option<String>, out: &mut Vec<(&'a [Selection], Option<String>)>) {
+        if sel.is_empty() {
+            return;
+        }
+        out.push((sel, parent.clone()));
         for s in sel {
             match s {
-                Selection::Field(f) => out.push((f, parent.map(|p| p.to_string()))),
+                Selection::Field(f) => {
+                    let base = self.field_type(f, &parent).map(|t| t.base().to_string()).filter(|b| self.s.is_composite(b));
+                    self.all_sets(&f.sel, base, out);
+                }
+                Selection::Inline(i) => {
+                    let inner = match &i.cond {
+                        Some(c) => {
+                            if self.s.is_composite(&c.s) {
+                                Some(c.s.clone())
+                            } else {
+                                None
+                            }
+                        }
+                        None => parent.clone(),
+                    };
+                    self.all_sets(&i.sel, inner, out);
+                }
+                Selection::Spread(_) => {}
+            }
+        }
+    }
+
+    /// "fieldsForName … including visiting fragments and inline fragments": every field reachable in the
+    /// set, with its parent type and (for attribution only) the type condition text of the fragment that
+    /// immediately encloses it (`None` = directly in the set or in a condition-less inline fragment).
+    fn fields_in_set(&self, sel: &'a [Selection], parent: Option<&str>, via: Option<&str>, visited: &mut BTreeSet<String>, out: &mut Vec<MField<'a>>) {
+        for s in sel {
+            match s {
+                Selection::Field(f) => out.push(MField { f, parent: parent.map(|p| p.to_string()), via: via.map(|v| v.to_string()) }),
                 Selection::Inline(i) => {
                     let inner = match &i.cond {
                         Some(c) => Some(c.s.as_str()),
                         None => parent,
                     };
-                    self.fields_in_set(&i.sel, inner, visited, out);
+                    self.fields_in_set(&i.sel, inner, i.cond.as_ref().map(|c| c.s.as_str()), visited, out);
                 }
                 Selection::Spread(sp) => {
                     if visited.insert(sp.name.s.clone()) {
                         if let Some(fr) = self.doc.frag(&sp.name.s) {
-                            self.fields_in_set(&fr.sel, Some(fr.cond.s.as_str()), visited, out);
+                            self.fields_in_set(&fr.sel, Some(fr.cond.s.as_str()), Some(fr.cond.s.as_str()), visited, out);
                         }
                     }
                 }
@@ -581,84 +651,147 @@ impl<'a> V<'a> {
         parent.as_ref().and_then(|p| self.s.field(p, &f.name.s)).map(|fd| fd.ty.clone())
     }
 
-    fn fields_can_merge(&mut self, fields: &[(&'a Field, Option<String>)], reported: &mut BTreeSet<(Pos, Pos)>, depth: usize) {
-        if depth > 20 {
-            return;
+    fn sub_fields(&self, m: &MField<'a>) -> Vec<MField<'a>> {
+        let base = self.field_type(m.f, &m.parent).map(|t| t.base().to_string());
+        let mut out = Vec::new();
+        let mut visited = BTreeSet::new();
+        self.fields_in_set(&m.f.sel, base.as_deref(), None, &mut visited, &mut out);
+        out
+    }
+
+    fn fields_can_merge(&mut self, fields: &[MField<'a>], reported: &mut BTreeSet<(Pos, Pos)>, depth: usize, recurse: bool) {
+        if depth > 12 {
+            return; // only reachable through fragment cycles, which 5.5.2.2 reports
         }
-        let mut by_key: BTreeMap<&str, Vec<usize>> = BTreeMap::new();
-        for (i, (f, _)) in fields.iter().enumerate() {
-            by_key.entry(f.key()).or_default().push(i);
+        let mut by_key: Vec<(&str, Vec<usize>)> = Vec::new();
+        for (i, m) in fields.iter().enumerate() {
+            match by_key.iter_mut().find(|(k, _)| *k == m.f.key()) {
+                Some((_, v)) => v.push(i),
+                None => by_key.push((m.f.key(), vec![i])),
+            }
         }
-        for idxs in by_key.values() {
+        let scope = if depth == 0 { "same-scope" } else { "merged-subselection" };
+        for (_, idxs) in &by_key {
             for x in 0..idxs.len() {
                 for y in x + 1..idxs.len() {
-                    let (fa, pa) = &fields[idxs[x]];
-                    let (fb, pb) = &fields[idxs[y]];
-                    // SameResponseShape
-                    let ta = self.field_type(fa, pa);
-                    let tb = self.field_type(fb, pb);
-                    if let (Some(ta), Some(tb)) = (&ta, &tb) {
-                        if !self.same_shape(ta, tb) {
-                            if reported.insert((fa.pos.min(fb.pos), fa.pos.max(fb.pos))) {
-                                self.e("FieldSelectionMerging", fb.pos, format!("fields for key {} have different response shapes ({ta} vs {tb})", fa.key()));
-                            }
-                            continue;
-                        }
+                    let a = &fields[idxs[x]];
+                    let b = &fields[idxs[y]];
+                    if std::ptr::eq(a.f, b.f) {
+                        continue; // one node reached twice (a fragment spread in both sub-selections)
                     }
-                    // parent types equal, or either is not an object type => must be the same field with same arguments
-                    let both_objects_differ = match (pa, pb) {
-                        (Some(a), Some(b)) => a != b && self.s.is_object(a) && self.s.is_object(b),
+                    let via = if a.via == b.via { "same-condition" } else { "different-condition" };
+                    let pair = (a.f.pos.min(b.f.pos), a.f.pos.max(b.f.pos));
+                    // 2.a SameResponseShape
+                    if !self.same_response_shape(a, b, 0) {
+                        if reported.insert(pair) {
+                            self.ec("FieldSelectionMerging", format!("{scope}/{via}/shape"), b.f.pos, format!("fields for key {} have different response shapes", a.f.key()));
+                        }
+                        continue;
+                    }
+                    // 2.b parent types equal, or either is not an Object type
+                    let exclusive = match (&a.parent, &b.parent) {
+                        (Some(pa), Some(pb)) => pa != pb && self.s.is_object(pa) && self.s.is_object(pb),
                         _ => false,
                     };
-                    if !both_objects_differ {
-                        if fa.name.s != fb.name.s {
-                            if reported.insert((fa.pos.min(fb.pos), fa.pos.max(fb.pos))) {
-                                self.e("FieldSelectionMerging", fb.pos, format!("key {} selects both {} and {}", fa.key(), fa.name.s, fb.name.s));
-                            }
-                            continue;
+                    if exclusive {
+                        continue;
+                    }
+                    if a.f.name.s != b.f.name.s {
+                        if reported.insert(pair) {
+                            self.ec("FieldSelectionMerging", format!("{scope}/{via}/field"), b.f.pos, format!("key {} selects both {} and {}", a.f.key(), a.f.name.s, b.f.name.s));
                         }
-                        if !same_args(&fa.args, &fb.args) {
-                            if reported.insert((fa.pos.min(fb.pos), fa.pos.max(fb.pos))) {
-                                self.e("FieldSelectionMerging", fb.pos, format!("key {} has differing arguments", fa.key()));
-                            }
-                            continue;
+                        continue;
+                    }
+                    if !same_args(&a.f.args, &b.f.args) {
+                        if reported.insert(pair) {
+                            self.ec("FieldSelectionMerging", format!("{scope}/{via}/args"), b.f.pos, format!("key {} has differing arguments", a.f.key()));
                         }
+                        continue;
+                    }
+                    // 2.b.iii–iv
+                    if recurse && (!a.f.sel.is_empty() || !b.f.sel.is_empty()) {
+                        let mut merged = self.sub_fields(a);
+                        merged.extend(self.sub_fields(b));
+                        self.fields_can_merge(&merged, reported, depth + 1, recurse);
                     }
                 }
-            }
-            // merged sub-selection of every field of this key
-            let mut sub = Vec::new();
-            let mut any = false;
-            for &i in idxs {
-                let (f, p) = &fields[i];
-                if !f.sel.is_empty() {
-                    any = true;
-                    let base = self.field_type(f, p).map(|t| t.base().to_string());
-                    let mut visited = BTreeSet::new();
-                    self.fields_in_set(&f.sel, base.as_deref(), &mut visited, &mut sub);
-                }
-            }
-            if any {
-                self.fields_can_merge(&sub, reported, depth + 1);
             }
         }
     }
 
-    /// §5.3.2 SameResponseShape on the declared types (recursion into sub-selections is done by the caller)
-    fn same_shape(&self, a: &Type, b: &Type) -> bool {
-        match (a, b) {
-            (Type::NonNull(x), Type::NonNull(y)) => self.same_shape(x, y),
-            (Type::NonNull(_), _) | (_, Type::NonNull(_)) => false,
-            (Type::List(x), Type::List(y)) => self.same_shape(x, y),
-            (Type::List(_), _) | (_, Type::List(_)) => false,
-            (Type::Named(x), Type::Named(y)) => {
-                if self.s.is_leaf(x) || self.s.is_leaf(y) {
-                    x == y
-                } else {
-                    self.s.is_composite(x) && self.s.is_composite(y)
+    /// §5.3.2 SameResponseShape(fieldA, fieldB)
+    fn same_response_shape(&self, a: &MField<'a>, b: &MField<'a>, depth: usize) -> bool {
+        if depth > 12 || std::ptr::eq(a.f, b.f) {
+            return true;
+        }
+        let (Some(ta), Some(tb)) = (self.field_type(a.f, &a.parent), self.field_type(b.f, &b.parent)) else {
+            return true; // an undefined field: 5.3.1 reports it, no shape to compare
+        };
+        let (mut ta, mut tb) = (&ta, &tb);
+        loop {
+            match (ta, tb) {
+                (Type::NonNull(x), Type::NonNull(y)) => {
+                    ta = x;
+                    tb = y;
+                }
+                (Type::NonNull(_), _) | (_, Type::NonNull(_)) => return false,
+                (Type::List(x), Type::List(y)) => {
+                    ta = x;
+                    tb = y;
+                }
+                (Type::List(_), _) | (_, Type::List(_)) => return false,
+                (Type::Named(x), Type::Named(y)) => {
+                    if self.s.ty(x).is_none() || self.s.ty(y).is_none() {
+                        return true;
+                    }
+                    if self.s.is_leaf(x) || self.s.is_leaf(y) {
+                        return x == y;
+                    }
+                    if !(self.s.is_composite(x) && self.s.is_composite(y)) {
+                        return false;
+                    }
+                    break;
                 }
             }
         }
+        let mut merged = self.sub_fields(a);
+        merged.extend(self.sub_fields(b));
+        for (i, x) in merged.iter().enumerate() {
+            for y in &merged[i + 1..] {
+                if x.f.key() == y.f.key() && !self.same_response_shape(x, y, depth + 1) {
+                    return false;
+                }
+            }
+        }
+        true
+    }
+}
+
+/// a field node of a selection set being merged, with its parent type
+struct MField<'a> {
+    f: &'a Field,
+    parent: Option<String>,
+    via: Option<String>,
+}
+
+/// kind of a literal, for the ValuesOfCorrectType clause
+fn lit_kind(v: &Value) -> &'static str {
+    match v {
+        Value::Var(_) => "Variable",
+        Value::Int(t) => {
+            if t.parse::<i128>().map(|i| (i32::MIN as i128..=i32::MAX as i128).contains(&i)).unwrap_or(false) {
+                "Int"
+            } else {
+                "IntOutOfRange"
+            }
+        }
+        Value::Float(_) => "Float",
+        Value::Str(_) => "String",
+        Value::Bool(_) => "Boolean",
+        Value::Null => "Null",
+        Value::Enum(_) => "Enum",
+        Value::List(_) => "List",
+        Value::Object(_) => "Object",
     }
 }
 
@@ -674,6 +807,14 @@ fn values_equal(a: &Value, b: &Value) -> bool {
         (Value::List(x), Value::List(y)) => x.len() == y.len() && x.iter().zip(y).all(|(p, q)| values_equal(&p.v, &q.v)),
         (Value::Object(x), Value::Object(y)) => x.len() == y.len() && x.iter().all(|(k, v)| y.iter().any(|(k2, v2)| k.s == k2.s && values_equal(&v.v, &v2.v))),
         (x, y) => x == y,
+    }
+}
+
+fn list_depth(t: &Type) -> usize {
+    match t {
+        Type::Named(_) => 0,
+        Type::NonNull(t) => list_depth(t),
+        Type::List(t) => 1 + list_depth(t),
     }
 }
 
@@ -765,6 +906,38 @@ type Message { body: String  sender: String }
         ok("{ pet { ... on Dog { doesKnowCommand(dogCommand: SIT) } ... on Cat { doesKnowCommand(catCommand: JUMP) } } }");
         bad("{ pet { ... on Dog { someValue: nickname } ... on Cat { someValue: meowVolume } } }", "FieldSelectionMerging");
         bad("{ dog { ...f } } fragment f on Dog { x: name ... on Dog { x: nickname } }", "FieldSelectionMerging");
+    }
+
+    // §5.3.2 FieldsInSetCanMerge step 2.b: identical names/arguments and the merged sub-selection are
+    // required only "if the parent types of fieldA and fieldB are equal or if either is not an Object
+    // Type"; for two different object types only SameResponseShape (step 2.a, recursive) is required.
+    #[test]
+    fn merging_mutually_exclusive_parents_and_nested_sets() {
+        let s = Schema::from_sdl("type Query { n: N } interface N { t: T  num: Int } type T implements N { t: T  num: Int  i: Int  str: String } type V implements N { t: T  num: Int }").unwrap();
+        let r = |q: &str| -> Vec<(String, String)> { validate_clauses(&s, &parse_exec(q).unwrap()).into_iter().map(|(e, c)| (e.rule.to_string(), c)).collect() };
+        // different object parents: sub-fields under one key may be different fields of equal shape
+        assert_eq!(r("{ n { ... on T { x: t { k: num } } ... on V { x: t { k: i } } } }"), vec![]);
+        // ... but SameResponseShape still recurses: Int vs T
+        assert_eq!(r("{ n { ... on T { x: t { k: num } } ... on V { x: t { k: t { num } } } } }"), vec![("FieldSelectionMerging".to_string(), "same-scope/different-condition/shape".to_string())]);
+        // ... and Int vs String at depth
+        assert_eq!(r("{ n { ... on T { x: t { k: num } } ... on V { x: t { k: str } } } }"), vec![("FieldSelectionMerging".to_string(), "same-scope/different-condition/shape".to_string())]);
+        // same (interface) parent: step 2.b.iv merges the two sub-selection sets
+        assert_eq!(r("{ n { t { k: num } t { k: i } } }"), vec![("FieldSelectionMerging".to_string(), "merged-subselection/same-condition/field".to_string())]);
+        // "any selection set defined in the document": a nested set is checked in its own right
+        assert_eq!(r("{ n { t { k: num k: i } } }"), vec![("FieldSelectionMerging".to_string(), "same-scope/same-condition/field".to_string())]);
+        // interface vs object parent: "either is not an Object Type" => identical names required
+        assert_eq!(r("{ n { k: num ... on T { k: i } } }"), vec![("FieldSelectionMerging".to_string(), "same-scope/different-condition/field".to_string())]);
+    }
+
+    // §3.11 (list input coercion: a non-list value at a list position is the single item) combined with
+    // §5.8.5: the variable inside an object literal given for `[In!]` is used at `In.r: Int!`.
+    #[test]
+    fn variable_position_inside_list_coerced_object_literal() {
+        let s = Schema::from_sdl("type Query { f(x: [In!]): Int } input In { r: Int! }").unwrap();
+        let r = |q: &str| -> Vec<&'static str> { validate(&s, &parse_exec(q).unwrap()).into_iter().map(|e| e.rule).collect() };
+        assert_eq!(r("query($v: Int) { f(x: {r: $v}) }"), vec!["AllVariableUsagesAreAllowed"]);
+        assert_eq!(r("query($v: Int) { f(x: [{r: $v}]) }"), vec!["AllVariableUsagesAreAllowed"]);
+        assert_eq!(r("query($v: Int!) { f(x: {r: $v}) }"), Vec::<&str>::new());
     }
 
     #[test]
